@@ -23,6 +23,30 @@ class Horizon(Exception):
     pass
 
 
+def warm_opcode_tracing():
+    """CPython 3.12 switches per-instruction events on lazily: the first traced execution of a process would see line
+    events only.  Tracing a harmless local function once with f_trace_opcodes set turns the instrumentation on for the
+    whole interpreter, so that the very first real execution (in particular in a freshly forked interpreter) already has
+    opcode granularity.  No library code runs here."""
+    def dummy():
+        x = 1
+        return x + 1
+
+    def loc(frame, event, arg):
+        return loc
+
+    def glob(frame, event, arg):
+        if event == 'call':
+            frame.f_trace_opcodes = True
+            return loc
+    sys.settrace(glob)
+    try:
+        dummy()
+        dummy()
+    finally:
+        sys.settrace(None)
+
+
 class Execution(object):
     def __init__(self, bodies, traced_files, prefix, opcode=False, horizon=200000):
         self.bodies = bodies
@@ -94,17 +118,23 @@ class Execution(object):
         ex = self
 
         def local(frame, event, arg):
+            if ex.opcode and not frame.f_trace_opcodes:
+                frame.f_trace_opcodes = True
             if event == 'line' or (ex.opcode and event == 'opcode'):
                 if ex.fatal is None:
                     ex._point(tid)
             return local
+
+        def noop(frame, event, arg):
+            return noop
 
         def glob(frame, event, arg):
             if event == 'call' and ex._is_traced(frame.f_code):
                 if ex.opcode:
                     frame.f_trace_opcodes = True
                 return local
-            return None
+            # CPython 3.12 delivers 'opcode' events to a traced frame only if its callers carry a local trace function too
+            return noop if ex.opcode else None
         return glob
 
     def _run_thread(self, tid):
@@ -125,6 +155,8 @@ class Execution(object):
                 self.sems[nxt].release()
 
     def run(self):
+        if self.opcode:
+            warm_opcode_tracing()
         threads = [threading.Thread(target=self._run_thread, args=(i,), name='T%d' % i, daemon=True) for i in range(self.n)]
         for t in threads:
             t.start()
